@@ -2828,8 +2828,9 @@ class Partitions(Expr):
 
         if isinstance(self.frame, Blockwise) and not isinstance(
             self.frame,
-            # BlockwiseHead decides itself how many partitions it outputs
-            (BlockwiseIO, Fused, SetIndexBlockwise, BlockwiseHead),
+            # BlockwiseHead decides itself how many partitions it outputs,
+            # MapOverlap needs the neighbours of the selected partitions
+            (BlockwiseIO, Fused, SetIndexBlockwise, BlockwiseHead, MapOverlap),
         ):
             # With a single input partition every operand has one partition; the
             # lower-dimensional ones are no broadcasts then and are selected as well,
